@@ -107,3 +107,11 @@ func SymNat(name string, bits int) *saferith.Nat { return new(saferith.Nat) }
 
 // SymInt returns an arbitrary integer with |v| < 2^bits.
 func SymInt(name string, bits int) *saferith.Int { return new(saferith.Int) }
+
+// SelectBytes returns a if c else b, byte-wise, without forking (engine: ite terms).
+func SelectBytes(c bool, a, b []byte) []byte {
+	if c {
+		return a
+	}
+	return b
+}
